@@ -59,6 +59,10 @@ T = {
  'c18w': ('an evaluation failing inside a nested FPy-to-FPy call, then a program reaching that callee through a nested call on the same thread', 'C18 A3 (exc:RuntimeError) in failure-mix runs'),
  'c19t': ('a cursor of a sibling branch / a descendant / from beyond an opaque pass handed to forward', 'C19 forward-across-unrelated'),
  'c18u': ('the same non-zero value passed as int and as float in one process, the later one reaching a result without arithmetic', 'C18 A3m (needed the comparison of whole results: representation, flags, context)'),
+ 'c17o': ('an EFloat context with eoffset > 0 and an operand in the top eoffset binades', 'C17 count-mismatch at the top_binade / top-gap positions'),
+ 'c18x': ('the same library constant under two contexts of one format with different rounding modes', 'C18 A3 on circle / consts'),
+ 'c19v': ("split with a factor given by the name of a variable, cursor on a statement after the loop", 'C19 edit-log-miscounts / forward-unrelated (needed variable factors among the generated parameters)'),
+ 'c19w': ('insert_round aimed by a statement cursor or region holding a refused operation and listed sites', 'C19 cursor-naming-sites-rejected (needed that rule)'),
 }
 base = os.path.join(os.path.dirname(os.path.dirname(os.path.abspath(__file__))), 'seeded')
 for mid, (needs, caught) in T.items():
